@@ -428,7 +428,7 @@ def short_key(cls):
 
 async def fake_run_test_task(runner, node):
     """The simulated test execution (replaces ``TestRunner.run_test_task``)."""
-    sim = runner._sim
+    sim = getattr(runner, "_sim", None) or CURRENT["sim"]
     worker = node.started_worker
     wid = worker.id if worker is not None else None
     params = node.params
@@ -888,4 +888,84 @@ def run_epoch(sim, epoch_cfg, logs_dir):
                 vtime=ending["vtime"], world=sim.world.digest())
         loop.close()
         asyncio.set_event_loop(None)
+    return ending
+
+
+# --------------------------------------------------------------------------------------------
+# manual tools (intertest_setup.update, Manu.run): C15, C20
+# --------------------------------------------------------------------------------------------
+
+def run_tool(sim, call, logs_dir):
+    """Run ``call(new_job_patch_installed)`` (a tool of intertest_setup or Manu.run) under the simulator."""
+    import contextlib
+    import avocado_i2n.cartgraph.node as node_mod
+    import avocado_i2n.intertest_setup as intertest
+    from avocado_i2n.cartgraph import TestGraph, TestWorker
+
+    CURRENT["sim"] = sim
+    node_mod.door = FakeDoor(sim)
+    TestWorker._session_cache = {}
+    sim.running = {}
+    sim.serial_at_epoch = sim.serial
+    scenario = sim.scenario
+    loop = make_loop(sim, scenario.get("step_budget", 150_000))
+    jobs = []
+
+    @contextlib.contextmanager
+    def fake_new_job(config):
+        job = FakeJob(os.path.join(logs_dir, f"job{len(jobs)}"), config, timeout=None)
+        os.makedirs(job.logdir, exist_ok=True)
+        jobs.append(job)
+        loader, runner = config["graph"].l, config["graph"].r
+        loader.logdir = job.logdir
+        runner.job = job
+        runner._sim = sim
+        sim.log("job.begin", n=len(jobs))
+        try:
+            yield job
+        finally:
+            sim.log("job.end", n=len(jobs), results=len(job.result.tests))
+
+    real_new_job = intertest.new_job
+    real_new_workers = TestGraph.new_workers
+
+    def new_workers(self, workers):
+        real_new_workers(self, workers)
+        sim.graph = self
+        register_workers(sim, list(self.workers.values()))
+
+    intertest.new_job = fake_new_job
+    TestGraph.new_workers = new_workers
+    ending = {"epoch": sim.epoch, "how": "completed", "error": None, "retval": None}
+    sim.log("epoch.begin", job="tool", params={}, world=sim.world.digest())
+    try:
+        ending["retval"] = call()
+    except (SimDeadlock, StepBudgetExceeded, SpinDetected, ExecBudgetExceeded, VirtualTimeBudgetExceeded) as error:
+        ending["how"] = "no-termination"
+        ending["error"] = f"{type(error).__name__}: {error}"
+    except Exception as error:
+        import traceback
+        ending["how"] = "raised"
+        ending["error"] = f"{type(error).__name__}: {error}"[:500]
+        ending["error_type"] = type(error).__name__
+        ending["traceback"] = traceback.format_exc()[-3000:]
+    finally:
+        intertest.new_job = real_new_job
+        TestGraph.new_workers = real_new_workers
+    ending["steps"] = loop.steps
+    ending["vtime"] = round(loop.time(), 4)
+    ending["jobs"] = len(jobs)
+    ending["results"] = [[{"uid": t["name"].uid, "name": t["name"].name, "status": t["status"]} for t in job.result.tests]
+                         for job in jobs]
+    ending["node_results"] = []
+    sim.log("epoch.end", how=ending["how"], error=ending["error"], steps=ending["steps"], vtime=ending["vtime"],
+            world=sim.world.digest())
+    try:
+        pending = [t for t in asyncio.all_tasks(loop) if not t.done()]
+        for t in pending:
+            t.cancel()
+    except Exception:
+        pass
+    loop.close()
+    asyncio.set_event_loop(None)
     return ending
